@@ -577,6 +577,15 @@ impl Stream {
             let pending_entries = group.add_pending(consumer_name, entries.clone());
             Ok(pending_entries)
         } else {
+            // NOACK deliveries are not pending, but they are deliveries: the
+            // group moves on, or the same entries would be handed out again
+            if after_id == StreamId::max() {
+                if let Some(last_entry) = entries.last() {
+                    if last_entry.id > group.get_last_id() {
+                        group.set_id(last_entry.id);
+                    }
+                }
+            }
             Ok(entries)
         }
     }
